@@ -726,6 +726,7 @@ class Gen:
         self.nullable_p = 0.35 if profile == "null" else 0.15
         self.field_mode = {}
         self.results = {}
+        self.arm_base = None
 
     def fresh(self, p):
         self.n += 1
@@ -949,11 +950,47 @@ class Gen:
         return self.cinfo[c]["fields"]
 
     # ---- statements ------------------------------------------------------------------------------
+    ARM_MARKS = ("branch", "match-arm", "handle-arm")
+
+    @staticmethod
+    def in_arm(pos):
+        return any(m in pos for m in Gen.ARM_MARKS)
+
+    @staticmethod
+    def branches(stmts):
+        """does the statement list contain, at any depth, a statement that opens constraint sets (if with else, match,
+        handle)?"""
+        for s in stmts:
+            if isinstance(s, (SMatch, SHandle)) or (isinstance(s, SIf) and s.e):
+                return True
+            if isinstance(s, SDef) and isinstance(s.e, EIf):      # an if-expression opens constraint sets as well
+                return True
+            if isinstance(s, SIf) and Gen.branches(s.t):
+                return True
+            if isinstance(s, (SWhile, SFor)) and Gen.branches(s.b):
+                return True
+        return False
+
     def block(self, env, depth, n, scope, pos, R=None, in_fun=False):
+        """Inside a branch / match arm / handle arm, a variable defined in the arm cannot be used after a nested
+        if-else / match / handle of the same arm: ConstrBuilder::reset_branches makes every later constraint of the arm
+        go to ALL constraint sets, also those that never saw the definition (`Cannot infer type`, finding D90); such
+        variables are withdrawn from the environment the generator draws from."""
         env = dict(env)
         out = []
-        for _ in range(n):
-            out += self.stmt(env, depth, scope, pos, R, in_fun)
+        opened = False
+        if self.in_arm(pos) and getattr(self, "arm_base", None) is None:
+            self.arm_base, opened = set(env), True
+        try:
+            for _ in range(n):
+                new = self.stmt(env, depth, scope, pos, R, in_fun)
+                out += new
+                if getattr(self, "arm_base", None) is not None and self.branches(new):
+                    for k in [k for k in env if k not in self.arm_base]:
+                        del env[k]
+        finally:
+            if opened:
+                self.arm_base = None
         return out, env
 
     def stmt(self, env, depth, scope, pos, R, in_fun):
@@ -1050,7 +1087,8 @@ class Gen:
             w = self.fresh("w")
             d = SDef(w, True, None, EInt(0))
             inner = dict(env); inner[w] = (INT, False)   # the counter is not offered for reassignment
-            body, _ = self.block(inner, depth - 1, r.randint(1, 2), scope, pos + "/loop", R, in_fun)
+            # inside an arm the counter is incremented after the body: the body must not open constraint sets (D90)
+            body, _ = self.block(inner, 0 if self.in_arm(pos) else depth - 1, r.randint(1, 2), scope, pos + "/loop", R, in_fun)
             body.append(SAssign(w, EOp("+", EVar(w), EInt(1))))
             env[w] = (INT, False)
             return [d, SWhile(EOp("<", EVar(w), EInt(r.randint(1, 3))), body)]
@@ -1136,13 +1174,22 @@ class Gen:
             body.append(SIf(cond, [SRaise(exc, [EStr("big")])], []))
         f.body = body
         if ret is not None:
-            for _ in range(8):
+            for attempt in range(12):
                 mark = len(self.sites)
-                f.result = self.expr(ret, e1, 2, f, pos, typed_site=True)
+                f.result = self.expr(ret, e1, 2 if attempt < 8 else 3, f, pos, typed_site=True)
                 txt = f.result.mamba()
-                if self.results.setdefault(txt, ret) == ret:
+                # the same `return e` with another declared type elsewhere is refused (finding D69); `return self` in
+                # two classes is the most frequent instance, so a bare `self` is never the result
+                if txt != "self" and self.results.get(txt, ret) == ret:
+                    self.results[txt] = ret
                     break
-                del self.sites[mark:]      # the same `return e` with another declared type elsewhere is refused (finding)
+                del self.sites[mark:]
+            else:
+                f.result = self.exact(ret.strip(), e1, 0, f, pos) if ret.c not in self.cinfo else None
+                if f.result is None:
+                    f.result = ECall(ret.c, [])
+                    self.call_args([Param(n, t) for n, t in self.all_ctor_fields(ret.c)], e1, 2, f, pos, f.result, "funarg")
+                self.results.setdefault(f.result.mamba(), ret)
             self.sites.append(Site("ret", pos, ret, f, "result", f))
         return f
 
@@ -1571,6 +1618,12 @@ def corpus():
         Program([exc], [g], [SMatch(EInt(1), [(0, [SHandle(("h", True, INT), ECall("g", [EInt(1)]),
                                                             [HArm("E1", "err", [], EInt(2))])]),
                                               (None, [SPrint(EInt(3))])])]))
+    add("arm-local-after-nested-branch", "conforming", "C05", "str-recv", "-", "top/match-arm",
+        Program([], [], [SDef("x", False, None, EInt(3)),
+                         SMatch(EVar("x"), [(1, [SDef("v", False, BOOL, EOp("<", EInt(10), EInt(3))),
+                                                 SIf(EBool(True), [SPrint(EInt(1))], [SPrint(EFloat("10.0"))]),
+                                                 SPrint(EFmt(["v=", EVar("v")]))]),
+                                            (None, [SPrint(EInt(2))])])]))
     add("pass-arm-in-function", "conforming", "C05", "arm", "-", "fun/handle-arm",
         Program([exc], [g, FDef("k", [_p("a", INT)], INT, [SHandle(None, ECall("g", [EVar("a")]), [HArm("E1", "err", [], None)])],
                                 EVar("a"))], []))
@@ -1812,6 +1865,13 @@ def run_check(pid, tier, replay, theorems, targets, module, kinds, profile, with
                 continue
             if r.model[1] == (r.impl[0] == "OK"):
                 n["corr_ok"] += 1
+            elif r.impl[0] == "ERR" and r.spec and r.model[0]:
+                # a CONFORMING program the implementation refuses: an over-rejection is C05's / C06's subject (their
+                # oracle reports it); for C04 it only leaves the premise "accepted" unsatisfied.  The direction that
+                # matters here - the implementation accepting what the model refuses - stays a broken tie.
+                n["over_rejected_conforming"] = n.get("over_rejected_conforming", 0) + 1
+                n.setdefault("over_rejected_examples", []).append(
+                    [r.origin, normalise_diag(r.impl[1].split(": ", 1)[-1])])
             else:
                 n["corr_bad"] += 1
                 bad_corr.append((r.origin, f"implementation {r.impl[0]}, model (impl quirks) {r.model[1]}", r.src[:600]))
